@@ -237,9 +237,10 @@ func genFact(p *prng) *Fact {
 		f.In = nil
 	}
 	f.Items = []*Inner{{X: f.I64 - 1, Y: 1.5, S: "it0", B: f.B}, {X: int64(f.U8), Y: -0.5, S: "", B: !f.B}}
-	if !(f.U8 == 3 && f.U16 >= 2) { // derived, not drawn (the PRNG stream of older replays is unchanged); nil interface 1 time in 8
-		f.Any = &Inner{X: f.I64 + 1, Y: 0.25, S: "any", B: !f.B}
-	}
+	// Any is never a nil interface here: the engine answers a read through a nil interface with an error value and a
+	// read through a nil pointer with a recovered panic, which leave different memo flags behind; the model has one
+	// constructor (FPtr None) for both, so the nil interface is outside the modelled fact class (DESIGN 11.8)
+	f.Any = &Inner{X: f.I64 + 1, Y: 0.25, S: "any", B: !f.B} // derived, not drawn
 	f.calls = map[string]int64{}
 	return f
 }
